@@ -27,6 +27,17 @@ SEED_CONTAINERS = {
     ('ECAgent.Core._MetaAgent', '_components'): ('dict', ('type',), ('inst', 'ECAgent.Core.Component')),
 }
 
+# which properties' rules rely on the element types of a seed row (only they become inconclusive when the row no
+# longer describes the tree; a property may instead turn the row into a violation of its own)
+SEED_DEPENDENTS = {
+    ('ECAgent.Core.SystemManager', 'execution_queue'): ['C01', 'C02', 'C05', 'C06'],
+    ('ECAgent.Core.SystemManager', 'systems'): ['C01', 'C05', 'C15'],
+    ('ECAgent.Core.SystemManager', 'component_pools'): ['C03'],
+    ('ECAgent.Core.Environment', 'agents'): ['C03', 'C04', 'C07', 'C12', 'C13', 'C17'],
+    ('ECAgent.Core.Agent', 'components'): ['C03', 'C13', 'C20'],
+    ('ECAgent.Core._MetaAgent', '_components'): ['C20'],
+}
+
 MUTATORS = {'append', 'insert', 'remove', 'pop', 'clear', 'extend', 'sort', 'reverse', 'update',
             'setdefault', 'popitem', 'add', 'discard', 'drop', 'appendleft', 'popleft'}
 
@@ -148,19 +159,23 @@ class TypeInfer:
     def validate_seeds(self) -> List[str]:
         """Seed rows must still describe the tree: field exists and is initialised by a literal of that kind."""
         problems = []
+        self.bad_seed_rows = []
         for (cq, f), t in SEED_CONTAINERS.items():
             ci = self.prog.classes.get(cq)
             if ci is None:
                 problems.append(f"seed table row {cq}.{f}: class vanished")
+                self.bad_seed_rows.append((cq, f))
                 continue
             init = self.field_init(ci, f)
             if init is None:
                 problems.append(f"seed table row {cq}.{f}: no initialiser found")
+                self.bad_seed_rows.append((cq, f))
                 continue
             want = ast.List if t[0] == 'list' else ast.Dict
             empty_call = isinstance(init[1], ast.Call) and isinstance(init[1].func, ast.Name) and \
                 init[1].func.id == t[0] and not init[1].args and not init[1].keywords
             if not isinstance(init[1], want) and not empty_call:
+                self.bad_seed_rows.append((cq, f))
                 problems.append(f"seed table row {cq}.{f}: initialiser {ast.unparse(init[1])} is not a {t[0]} literal")
         return problems
 
